@@ -48,6 +48,9 @@ type SQLTable struct {
 	Checks  map[string]string // column -> check expression
 	RowID   string            // INTEGER PRIMARY KEY alias
 	Src     string
+	// conflict-resolution clauses declared in the DDL other than the default (ABORT) and FAIL/ROLLBACK: with
+	// REPLACE or IGNORE a plain INSERT no longer fails on the constraint
+	ConflictClauses []string
 }
 
 type SQLCat struct {
@@ -685,6 +688,12 @@ func (cat *SQLCat) addTable(name, text string) {
 	}
 	for _, it := range items {
 		U := strings.ToUpper(it)
+		if i := strings.Index(U, "ON CONFLICT"); i >= 0 {
+			res := strings.Fields(U[i+len("ON CONFLICT"):])
+			if len(res) == 0 || (res[0] != "ABORT" && res[0] != "FAIL" && res[0] != "ROLLBACK") {
+				t.ConflictClauses = append(t.ConflictClauses, oneLine(it))
+			}
+		}
 		switch {
 		case strings.HasPrefix(U, "PRIMARY KEY"), strings.HasPrefix(U, "UNIQUE"):
 			t.Uniques = append(t.Uniques, colsIn(it))
